@@ -65,9 +65,9 @@ impl Kind {
     }
 }
 
-const WRAPS: [&str; 18] = [
+const WRAPS: [&str; 19] = [
     "none", "macro", "macro-uninvoked", "if1", "if0", "interp", "loop", "loopdef", "macro-arg", "shadowed-first-segment", "expr-positions",
-    "else-untaken", "if0-if0", "if0-else-untaken", "if1-if0",
+    "else-untaken", "if0-if0", "if0-else-untaken", "if1-if0", "untaken-def-nearer",
     "expr-repeat", "macro-named-a", "macro-arg-same-name",
 ];
 
@@ -158,7 +158,7 @@ impl Spec {
 }
 
 pub fn catalogue(thorough: bool) -> Vec<Spec> {
-    let wraps: Vec<usize> = if thorough { (0..WRAPS.len()).collect() } else { vec![0, 13, WRAPS.len() - 3, WRAPS.len() - 1] };
+    let wraps: Vec<usize> = if thorough { (0..WRAPS.len()).collect() } else { vec![0, 13, 15, WRAPS.len() - 3, WRAPS.len() - 1] };
     let kinds = [Kind::N, Kind::L, Kind::C];
     let mut out = vec![];
     for k0 in kinds {
@@ -639,6 +639,15 @@ impl Gen {
                     self.close(f, ind + k);
                 }
             }
+            "untaken-def-nearer" => {
+                // a constant called like the symbol, defined in a branch that is not taken, nearer than the definition
+                // the build binds the use to (what is not assembled defines nothing)
+                self.line(f, format!("{}.if 0 {{", i));
+                let l = self.line(f, format!("{}.const a = 99 // a", INDS[ind + 1]));
+                self.add_def(f, l, INDS[ind + 1].len() as u32 + 7, "a", "untaken", None, Some(99), w, level);
+                self.close(f, ind);
+                self.use_block(f, ind, 0, path, level, path, w, false);
+            }
             "loop" | "loopdef" => {
                 self.line(f, format!("{}.loop 2 {{", i));
                 if w == "loopdef" {
@@ -899,13 +908,8 @@ pub fn assemble(files: &[(String, String)]) -> Result<Asm, PanicInfo> {
         let mut diags: Vec<String> = errs.iter().map(|d| d.message.clone()).collect();
         let mut segs = vec![];
         if let (Some(tree), true) = (tree, diags.is_empty()) {
-            let (ctx, errs) = codegen(
-                tree,
-                CodegenOptions {
-                    enable_greedy_analysis: true,
-                    ..Default::default()
-                },
-            );
+            // (the build: what is not assembled is not analysed either)
+            let (ctx, errs) = codegen(tree, CodegenOptions::default());
             let cm = errs.code_map();
             for d in errs.iter() {
                 let loc = match (cm, d.labels.first()) {
@@ -1302,6 +1306,12 @@ fn survey(p: &Program, s: &mut Server) -> Result<Survey, Death> {
 }
 
 const SEVERAL: &str = "+several-definitions-at-position";
+/// the definition in a branch that is not taken (wrapper `untaken-def-nearer`) is involved in the deviation
+const UNTAKEN: &str = "definition-in-untaken-branch-taken-for-real";
+
+fn untaken_def(p: &Program) -> Option<usize> {
+    p.defs.iter().position(|d| d.level == "untaken")
+}
 
 fn def_label(p: &Program, d: usize) -> String {
     let d = &p.defs[d];
@@ -1418,8 +1428,13 @@ fn nav_checks(run: &Run, p: &Program, s: &mut Server) -> Result<(), Death> {
                                 case,
                             );
                         } else if locs[0] != exp {
+                            let to_untaken = untaken_def(p).map_or(false, |u| def_loc(&p.defs[u]) == locs[0]);
                             run.finding(
-                                sig_of("nav:definition", &def_label(p, *d), &o.level, &o.form, o.wrap, "wrong-target", sv.several[oi]),
+                                if to_untaken {
+                                    sig_cause("nav:definition", "", "", "", "", "wrong-target", Some(UNTAKEN))
+                                } else {
+                                    sig_of("nav:definition", &def_label(p, *d), &o.level, &o.form, o.wrap, "wrong-target", sv.several[oi])
+                                },
                                 format!(
                                     "definition at {}:{}:{} (`{}` in `{}`) leads to {} (`{}`) but the build uses the {} definition at {}{}",
                                     p.files[o.file].0, o.line, ch, text, src_line(p, o.file, o.line),
@@ -1471,6 +1486,7 @@ fn nav_checks(run: &Run, p: &Program, s: &mut Server) -> Result<(), Death> {
         let mut whats: BTreeSet<&str> = BTreeSet::new();
         let mut notes: Vec<String> = vec![];
         let mut several = sv.several[anchor_i];
+        let mut involved: Vec<usize> = vec![];
         for (oi, o) in p.occs.iter().enumerate() {
             if let Some(f) = only_file {
                 if o.file != f {
@@ -1503,6 +1519,7 @@ fn nav_checks(run: &Run, p: &Program, s: &mut Server) -> Result<(), Death> {
                 "extra"
             };
             whats.insert(what);
+            involved.push(oi);
             several |= sv.several[oi];
             notes.push(format!(
                 "{} {} (`{}`) {}",
@@ -1560,8 +1577,15 @@ fn nav_checks(run: &Run, p: &Program, s: &mut Server) -> Result<(), Death> {
         // with several definitions at one position the answers are unions: one signature for all shapes
         let what = if several { "wrong-set".to_string() } else { whats.iter().cloned().collect::<Vec<_>>().join("+") };
         let shown: Vec<String> = notes.iter().filter(|n| !n.contains("multi-line")).take(4).cloned().collect();
+        let untaken = untaken_def(p).map_or(false, |u| {
+            anchor.role == Role::DefSite(u) || involved.iter().any(|oi| sv.server_def[*oi] == Some(u) || p.occs[*oi].role == Role::DefSite(u))
+        });
         run.finding(
-            sig_of(&format!("nav:{}", label), &def_label(p, d), &anchor.level, &anchor.form, anchor.wrap, &what, several),
+            if untaken {
+                sig_cause(&format!("nav:{}", label), "", "", "", "", &what, Some(UNTAKEN))
+            } else {
+                sig_of(&format!("nav:{}", label), &def_label(p, d), &anchor.level, &anchor.form, anchor.wrap, &what, several)
+            },
             format!(
                 "{} at {} (`{}`, refers to the {} definition `{}` at {}): the answer {}{}",
                 req,
@@ -1825,7 +1849,18 @@ fn rename_checks(run: &Run, p: &Program, shared: &mut Server, asm0: &Asm) -> Res
                         }
                     }
                 }
-                let cause = if several {
+                // the definition in a branch that is not taken: the rename starts at it, at the use the server binds to
+                // it, or at the definition that use really refers to
+                let on_untaken = untaken_def(p).map_or(false, |u| {
+                    let main_use_target = p.occs.iter().find(|x| x.use_id == Some(0) && matches!(x.role, Role::ByBytes(_))).and_then(|x| match x.resolved {
+                        Resolved::Def(d) => Some(d),
+                        _ => None,
+                    });
+                    o.role == Role::DefSite(u) || sv.server_def[oi] == Some(u) || (target.is_some() && target == main_use_target)
+                });
+                let cause = if on_untaken {
+                    Some(UNTAKEN)
+                } else if several {
                     Some("several-definitions-at-position")
                 } else if on_super {
                     Some("edit-replaces-super")
@@ -2031,8 +2066,14 @@ fn rename_checks(run: &Run, p: &Program, shared: &mut Server, asm0: &Asm) -> Res
                 let mut s2 = open_server(&new_files)?;
                 if !server_diags(&s2).is_empty() {
                     // cannot happen when the in-process assembly is clean; machinery cross-check
-                    ctx.count("machinery_server_and_inprocess_diagnostics_disagree");
-                    ctx.cap("fresh server reports diagnostics for an edited project that assembles cleanly in-process");
+                    // (the server also analyses what is not assembled, and may complain about that)
+                    ctx.count(&format!("edited_project_builds_cleanly_but_the_server_reports_diagnostics_wrap_{}", spec["wrap"].as_str().unwrap_or("")));
+                    if std::env::var("C15_DUMP_SERVER_ONLY").is_ok() {
+                        eprintln!("[c15] {} {:?}\n{}", case, server_diags(&open_server(&new_files)?), new_files[0].1);
+                    }
+                    if run.verbose {
+                        println!("fresh server on the edited project reports: {:?}", server_diags(&s2));
+                    }
                 }
                 let back = rename_request(&mut s2, &p.files[o.file].0, o.line, new_ch, text);
                 drop(s2);
@@ -2142,8 +2183,9 @@ fn run_program(run: &Run, spec: &Spec, prefix: &'static str, c15: bool) {
         }
     };
     if !asm.diags.is_empty() {
-        ctx.count("machinery_server_and_inprocess_diagnostics_disagree");
-        ctx.cap(format!("server reports no diagnostics, in-process assembly does: {:?} for {}", asm.diags, spec.to_json()));
+        // the build rejects the program (the server, which also looks at what is not assembled, does not): not an
+        // error-free project
+        ctx.count("programs_out_of_scope_the_build_reports_errors_the_server_does_not");
         return;
     }
     if let Err(e) = resolve(&mut p, &asm) {
@@ -2246,7 +2288,8 @@ pub fn run(ctx: &Ctx, replay: Option<&Value>) -> i32 {
         println!("{} replay: {} failing check(s)", ctx.id, n);
         return if n > 0 { 1 } else { 0 };
     }
-    let mut specs = catalogue(ctx.tier.is_thorough());
+    // (a navigation case is one request on a shared server: C16 runs all wrappers in both tiers)
+    let mut specs = catalogue(ctx.tier.is_thorough() || !c15);
     if c15 && !ctx.tier.is_thorough() {
         // a rename case costs two fresh servers: the quick tier keeps one statement order
         specs.retain(|s| match s {
@@ -2285,7 +2328,7 @@ pub fn run(ctx: &Ctx, replay: Option<&Value>) -> i32 {
         "bound",
         json!({
             "levels": 3, "definition_kinds": ["none", "label", "const"], "path_forms": FORMS,
-            "wrappers": if ctx.tier.is_thorough() { WRAPS.to_vec() } else { vec!["none", "expr-repeat", "macro-arg-same-name"] },
+            "wrappers": if ctx.tier.is_thorough() || !c15 { WRAPS.to_vec() } else { vec!["none", "if0-else-untaken", "untaken-def-nearer", "expr-repeat", "macro-arg-same-name"] },
             "orders": if c15 && !ctx.tier.is_thorough() { json!(["definitions-first"]) } else { json!(["definitions-first (all wrappers)", "uses-first (unwrapped use only)"]) },
             "imports": IMPORTS,
             "positions": if c15 { json!(["start", "middle", "end"]) } else { json!(["first char", "last char"]) },
@@ -2299,7 +2342,7 @@ pub fn run(ctx: &Ctx, replay: Option<&Value>) -> i32 {
             true,
             &[
                 "programs are in scope only if a fresh server publishes no diagnostics for them; the rest is counted",
-                "'assembles' is judged by an in-process mos_core build with the language server's options (greedy analysis, pc $c000)",
+                "'assembles' is judged by an in-process mos_core build with the options of `mos build`",
                 "offered-but-no-edit is counted, not judged; identical duplicate edits are dropped before applying (counted)",
                 "identifiers are ASCII; the non-ASCII text is a comment in front of each line (2-, 3- and 4-byte characters), columns are UTF-16 columns",
                 "each rename runs on a fresh server; prepareRename (read-only) shares one server per program",
@@ -2312,7 +2355,7 @@ pub fn run(ctx: &Ctx, replay: Option<&Value>) -> i32 {
             true,
             &[
                 "programs are in scope only if a fresh server publishes no diagnostics for them; the rest is counted",
-                "the definition a use binds to is read off the bytes of an in-process mos_core build with the server's options",
+                "the definition a use binds to is read off the bytes of an in-process mos_core build with the options of `mos build`",
                 "occurrences for which nothing is assembled (uninvoked macro, untaken branch) and `super` tokens: symmetry between definition and references only",
                 "answers are compared as sets of (uri, range); the whole `x as y` import argument counts as one occurrence",
                 "references is queried on definitions, documentHighlight on every occurrence",
